@@ -10,9 +10,10 @@ with the emission buffer; `Proc.shape` (Spec/ProcShape.lean) is the bracket
 stated by stack index.  The interleaving is the one of the code: `event_start` of element `i` runs
 right before `incoming` of element `i` (not: all `event_start`s first, as the module docs say).
 All theorems quantify over every stack (any length, any scripted behaviour — arbitrary functions
-of what an element can observe), every event kind, every module state (counters, sleeping tasks)
-and, for the run theorems, every configuration (modules, global/own elements via `buildStack`,
-injected messages) and every number of dispatched events.
+of what an element can observe, including shutdown / restart requests from any hook), every event
+kind, every module state (counters, sleeping tasks, active or shut down) and, for the run
+theorems, every configuration (modules, global/own elements via `buildStack`, injected messages)
+and every number of dispatched events — so over all lifecycles (shutdown, down time, restart).
 -/
 import Desverif.Proofs.ProcKernel
 namespace C14
@@ -23,7 +24,7 @@ open Proc
     `incoming` and its sends; the handler call and its sends; the sends of the tasks that were
     due; per element in reverse order `event_end` and its sends. -/
 theorem trace_shape (c : Ctx) (m : ModRt) (kind : Kind) :
-    (runEvent c m kind).items = traceShape c m kind := runEvent_items c m kind
+    (runEvent c m kind).items = traceShape c m kind (dueTasks c m) := runEvent_items c m kind
 
 /-- **Bracket shape.** The call log of every event on every stack is
     `start₀ inc₀? … start_{k-1} inc_{k-1}? handler? end_{k-1} … end₀`, where `incᵢ` shows the message
@@ -62,23 +63,7 @@ theorem handler_gets_final_message (c : Ctx) (m : ModRt) (id x : Nat)
     (runEvent c m (.message id)).log.filter (fun e => e.who == none) =
       [⟨c.mod, none, .msg, some x, c.now⟩] := by
   have hlen : m.acts.length = m.elems.length := by simp [ModRt.acts]
-  rw [bracket_shape]
-  simp only [shape, List.filter_append, filter_flatMap', hlen, Kind.msg?, h, handlerEntries]
-  have h1 : (List.range m.elems.length).flatMap
-      (fun a => (upEntries c.mod c.now m.acts (some id) a).filter (fun e => e.who == none)) = [] := by
-    rw [List.flatMap_eq_nil_iff]
-    intro a _
-    rw [List.filter_eq_nil_iff]
-    intro e he
-    rcases mem_upEntries he with h | ⟨_, _, h⟩ <;> subst h <;> simp [startEntry, incEntry]
-  have h2 : ((List.range m.elems.length).reverse.map (endEntry c.mod c.now)).filter
-      (fun e => e.who == none) = [] := by
-    rw [List.filter_eq_nil_iff]
-    intro e he
-    simp only [List.mem_map] at he
-    obtain ⟨_, _, rfl⟩ := he
-    simp [endEntry]
-  rw [h1, h2]; simp
+  rw [bracket_shape, shape_handler_filter, hlen, h]
 
 /-- sim-start stages and sim end always reach the handler (exactly one handler entry, between the
     last `event_start` and the first `event_end`); a wake-up never does -/
@@ -134,7 +119,7 @@ theorem start_end_exactly_once (c : Ctx) (m : ModRt) (kind : Kind) (i : Nat) :
 
 /-- the behaviours of a module's stack are the same after every event (only counters move) -/
 theorem stack_static (c : Ctx) (m : ModRt) (kind : Kind) : (runEvent c m kind).mod.acts = m.acts :=
-  runEvent_acts c m kind
+  runEvent_acts' c m kind
 
 /-- **Brackets of two events never interleave**: after any number of dispatched events, on any
     configuration, the global call log is a concatenation of complete brackets — one per event
@@ -148,44 +133,83 @@ theorem brackets_do_not_interleave (fuel : Nat) (cfg : Config) :
 
 /-- every entry of a bracket carries the module and the time of its event -/
 theorem bracket_single_event (mi t : Nat) (acts : List (Nat → Act)) (kind : Kind) :
-    ∀ e ∈ shape mi t acts kind, e.mod = mi ∧ e.time = t := by
-  intro e he
-  rcases mem_shape he with ⟨i, _, h | ⟨_, _, h⟩ | h⟩ | h
-  · subst h; exact ⟨rfl, rfl⟩
-  · subst h; exact ⟨rfl, rfl⟩
-  · subst h; exact ⟨rfl, rfl⟩
-  · exact (handlerEntries_who h).2
+    ∀ e ∈ shape mi t acts kind, e.mod = mi ∧ e.time = t := shape_mod mi t acts kind
+
+/-- **Over all events of all lifecycles the handler is skipped iff the message was consumed:**
+    every bracket of the global log that carries a message contains exactly one handler call if
+    no element of that module's stack consumed the message, and none otherwise. -/
+theorem handler_iff_unconsumed_everywhere (fuel : Nat) (cfg : Config) :
+    ∃ events : List (Nat × Nat × Kind),
+      (run fuel cfg).log = bracketLog (cfg.mods.map ModRt.acts) events ∧
+      ∀ mi t id, (mi, t, Kind.message id) ∈ events →
+        ∃ acts, (cfg.mods.map ModRt.acts)[mi]? = some acts ∧
+          ((shape mi t acts (.message id)).filter (fun e => e.who == none)).length =
+            (if ∃ j, j < acts.length ∧ consumesAt acts (some id) j = true then 0 else 1) := by
+  obtain ⟨brs, h1, h2⟩ := (run_inv fuel cfg).log
+  refine ⟨brs, h1, ?_⟩
+  intro mi t id hmem
+  have hlt := h2 _ hmem
+  refine ⟨(cfg.mods.map ModRt.acts)[mi], List.getElem?_eq_getElem hlt, ?_⟩
+  rw [shape_handler_filter]
+  have hiff := msgAt_isNone (cfg.mods.map ModRt.acts)[mi] id _ (Nat.le_refl _)
+  cases hmsg : msgAt (cfg.mods.map ModRt.acts)[mi] (some id) (cfg.mods.map ModRt.acts)[mi].length with
+  | none => rw [if_pos (hiff.mp hmsg)]; rfl
+  | some x =>
+    have hne : ¬ ∃ j, j < (cfg.mods.map ModRt.acts)[mi].length ∧
+        consumesAt (cfg.mods.map ModRt.acts)[mi] (some id) j = true := by
+      intro h
+      have := hiff.mpr h
+      rw [hmsg] at this
+      simp at this
+    rw [if_neg hne]; rfl
+
+/-- **A module that is shut down sees no hook:** a message or a wake-up that is dispatched to a
+    module with `active = false` logs nothing at all — no `event_start`, no `incoming`, no
+    handler, no `event_end` — and the module stays shut down. -/
+theorem inactive_no_hooks (s : Sim) (mi : Nat) (kind : Kind) (flush : Bool)
+    (hin : s.inactive mi) (hk : kind.needsActive = true) :
+    (s.moduleEvent mi kind flush).log = s.log ∧ (s.moduleEvent mi kind flush).inactive mi :=
+  ⟨(moduleEvent_inactive s mi kind flush hin hk).2, (moduleEvent_inactive s mi kind flush hin hk).1⟩
+
+/-- **… until its restart event:** whatever kernel event is dispatched, as long as it is not the
+    module's own `ModuleRestartEvent`, a module that is shut down stays shut down and the part of
+    the call log that belongs to it does not grow. -/
+theorem inactive_until_restart (s s' : Sim) (mi : Nat) (hs : s.step = some s') (hin : s.inactive mi)
+    (hne : s.peek? ≠ some (.restart mi)) : s'.inactive mi ∧ s'.modLog mi = s.modLog mi :=
+  step_inactive s s' mi hs hin hne
+
+/-- **Restart:** the restart event runs *all* start stages of the module as consecutive complete
+    brackets at one time, on the very same element instances (behaviours unchanged, counters
+    carried over — elements are not re-created). -/
+theorem restart_brackets (c : Ctx) (m : ModRt) :
+    (restartEvent c m).log =
+      (List.range m.handler.stages).flatMap (fun k => shape c.mod c.now m.acts (.simStart k)) ∧
+    (restartEvent c m).mod.acts = m.acts :=
+  ⟨restartEvent_log c m, restartEvent_acts c m⟩
 
 /-- **Emissions leave in program order (1):** what an event pushes onto the emission buffer is,
     in this order: per element in stack order the sends of `event_start` then of `incoming`; the
     handler's sends; the sends of due tasks (deadline order); per element in reverse order the
     sends of `event_end`. -/
 theorem emissions_in_program_order (c : Ctx) (m : ModRt) (kind : Kind) :
-    (runEvent c m kind).pushes = pushShape c m kind := runEvent_pushes c m kind
+    (runEvent c m kind).pushes = pushShape c m kind (dueTasks c m) := runEvent_pushes c m kind
 
 /-- **Emissions leave in program order (2):** `deactivate` + `buf_process` hand the wake-up (if
-    any) and then the buffered events to the future event set in exactly that order: the table of
-    scheduled events (index = scheduling order, the tie-breaker of C03) grows by precisely that
-    list. -/
+    any), then the buffered events, then the restart event of a shutdown request to the future
+    event set in exactly that order: the table of scheduled events (index = scheduling order, the
+    tie-breaker of C03) grows by precisely that list. -/
 theorem flush_in_push_order (s : Sim) (mi : Nat) (kind : Kind) (m : ModRt)
-    (hm : s.mods[mi]? = some m) (hok : (s.moduleEvent mi kind true).fault = none) :
+    (hm : s.mods[mi]? = some m) (hact : m.active = true)
+    (hok : (s.moduleEvent mi kind true).fault = none) :
     (s.moduleEvent mi kind true).evs.toList =
       s.evs.toList
         ++ ((runEvent ⟨mi, s.fes.cur⟩ m kind).wake.map fun _ => KEvent.wakeup mi).toList
-        ++ (pushShape ⟨mi, s.fes.cur⟩ m kind).map (·.1) := by
+        ++ (pushShape ⟨mi, s.fes.cur⟩ m kind (dueTasks ⟨mi, s.fes.cur⟩ m)).map (·.1)
+        ++ restartOf mi (runEvent ⟨mi, s.fes.cur⟩ m kind).shutdown := by
   unfold Sim.moduleEvent at hok ⊢
   rw [hm] at hok ⊢
-  simp only [if_true] at hok ⊢
-  obtain ⟨h1, h2⟩ := foldl_schedule_evs _ _ hok
-  rw [h2, runEvent_pushes]
-  congr 1
-  cases hw : (runEvent ⟨mi, s.fes.cur⟩ m kind).wake with
-  | none => simp
-  | some t =>
-    rw [hw] at h1
-    simp only at h1
-    obtain ⟨_, h3⟩ := schedule_fault_sticky _ _ _ h1
-    simp [h3]
+  simp only [hact, Bool.not_true, Bool.and_false, Bool.false_eq_true, if_false] at hok ⊢
+  rw [finish_evs _ _ _ hok, runEvent_pushes]
 
 /-- `Module::stack` of the harness modules: the installed stack is the builder's default stack
     followed / preceded / replaced by the module's own elements, with fresh counters -/
@@ -199,23 +223,26 @@ theorem buildStack_specs (g o : List Elem) :
 
 /-- passes everything, sends message 9 to itself from its first `event_start` -/
 def e0 : Elem :=
-  { tag := 0, act := fun _ => .pass, onStart := fun n => if n = 0 then [⟨false, 0, 2, 9⟩] else [],
-    onInc := fun _ => [], onEnd := fun _ => [] }
+  { tag := 0, act := fun _ => .pass
+    onStart := fun n => if n = 0 then [.send ⟨false, 0, 2, 9⟩] else []
+    onInc := fun _ _ => [], onEnd := fun _ => [] }
 /-- rewrites 5 to 7 -/
 def e1 : Elem :=
-  { tag := 1, act := fun id => if id = 5 then .modify 7 else .pass, onStart := fun _ => [],
-    onInc := fun id => if id = 5 then [⟨true, 1, 0, 8⟩] else [], onEnd := fun _ => [] }
-/-- consumes 7 -/
+  { tag := 1, act := fun id => if id = 5 then .modify 7 else .pass, onStart := fun _ => []
+    onInc := fun id _ => if id = 5 then [.send ⟨true, 1, 0, 8⟩] else [], onEnd := fun _ => [] }
+/-- consumes 7; shuts the module down for 20 ns from its fourth `event_end` -/
 def e2 : Elem :=
-  { tag := 2, act := fun id => if id = 7 then .consume else .pass, onStart := fun _ => [],
-    onInc := fun _ => [], onEnd := fun n => if n = 0 then [⟨false, 0, 0, 3⟩] else [] }
+  { tag := 2, act := fun id => if id = 7 then .consume else .pass, onStart := fun _ => []
+    onInc := fun _ _ => []
+    onEnd := fun n => if n = 0 then [.send ⟨false, 0, 0, 3⟩] else if n = 3 then [.shutdown (some 20)] else [] }
 
 def h0 : Handler :=
-  { stages := 2, onMsg := fun id => if id = 9 then [.task 4 ⟨false, 0, 0, 6⟩, .now ⟨false, 0, 1, 4⟩] else [],
-    onSimStart := fun _ => [], onSimEnd := [] }
+  { stages := 2
+    onMsg := fun id _ => if id = 9 then [.task 4 ⟨false, 0, 0, 6⟩, .now ⟨false, 0, 1, 4⟩] else []
+    onSimStart := fun _ _ => [], onSimEnd := [] }
 
-def m0 : ModRt := { elems := buildStack .append [e0] [e1, e2], handler := h0, sleepers := [], nextWakeup := none }
-def m1 : ModRt := { elems := [], handler := { h0 with stages := 1 }, sleepers := [], nextWakeup := none }
+def m0 : ModRt := ModRt.fresh (buildStack .append [e0] [e1, e2]) h0
+def m1 : ModRt := ModRt.fresh [] { h0 with stages := 1 }
 
 /-- message 5 on the 3-element stack: rewritten by element 1, consumed by element 2, handler
     skipped, all three `event_end`s in reverse order -/
@@ -237,14 +264,32 @@ example : (runEvent ⟨0, 10⟩ m0 (.message 5)).pushes =
 example : (runEvent ⟨0, 10⟩ m0 (.message 9)).wake = some 15 ∧
     (runEvent ⟨0, 10⟩ m0 (.message 9)).log.length = 10 := by decide
 
-/-- a whole run (2 modules, empty stack on the second, injected messages, a task wake-up): no
-    fault, so the hypothesis of `flush_in_push_order` is met along a real history -/
-def cfg0 : Config := { mods := [m0, m1], inits := [(0, 5, 0), (0, 9, 3), (1, 5, 3)] }
+/-- a whole run (2 modules, empty stack on the second, injected messages, a task wake-up, a
+    shutdown requested by an element with a restart 20 ns later, messages that arrive during the
+    down time): no fault, so the hypothesis of `flush_in_push_order` is met along a real history -/
+def cfg0 : Config :=
+  { mods := [m0, m1], inits := [(0, 5, 0), (0, 9, 3), (1, 5, 3), (0, 1, 6), (0, 2, 7), (0, 2, 30)] }
 
-example : (run 100 cfg0).fault = none ∧ (run 100 cfg0).log.length = 116 := by decide
+example : (run 100 cfg0).fault = none := by decide
 
-/-- two wake-ups were scheduled by that run (scheduling ids 6 and 9) -/
-example : ((run 100 cfg0).evs.toList.filter (· == .wakeup 0)).length = 2 := by decide
+/-- the shutdown was requested once (at 0, restart at 20), one restart event was scheduled, and the
+    four messages due at 2, 3, 6 and 7 found the module shut down: no call of module 0 is logged
+    between the shutdown and the restart, which runs both start stages at 20 -/
+example : (run 100 cfg0).downs.map (·.2) = [(0, some 20)] ∧
+    ((run 100 cfg0).evs.toList.filter (· == .restart 0)).length = 1 ∧
+    ((run 100 cfg0).log.filter (fun e => e.mod == 0 && 0 < e.time && e.time < 20)) = [] ∧
+    ((run 100 cfg0).log.filter (fun e => e.mod == 0 && e.time == 20)).map (·.hook) =
+      [.start, .start, .start, .simStart, .end_, .end_, .end_,
+       .start, .start, .start, .simStart, .end_, .end_, .end_] := by decide
+
+/-- a state in which module 0 is shut down, and a step on it that is not its restart -/
+def sDown : Sim := Sim.loop 3 (Sim.init cfg0).simStart
+example : sDown.inactive 0 := by
+  have h1 : (sDown.mods[0]?.map (·.active)) = some false := by decide
+  cases h : sDown.mods[0]? with
+  | none => rw [h] at h1; simp at h1
+  | some m => rw [h] at h1; exact ⟨m, h, by simpa using h1⟩
+example : sDown.peek? = some (.deliver 0 9) ∧ sDown.peek? ≠ some (.restart 0) := by decide
 
 example : ((Sim.init cfg0).moduleEvent 0 (.message 9) true).fault = none := by decide
 
